@@ -125,3 +125,64 @@ func byteString(bs []int) string {
 	}
 	return string(out)
 }
+
+// IndexExact decides INDEX-EXACT (C16): both ORIGIN readers compare the nine
+// index columns of every line, byte for byte, with the text the writer prints
+// for that line (`%9d` of the 1-based position). A reader that parses the
+// columns as a number instead accepts other spellings of the same number
+// (zero padded, signed), so the two paths stop accepting the same blocks.
+func IndexExact(p *core.Prog, r *core.Report) {
+	r.Rule("INDEX-EXACT", "seqio.validateOrigin and seqio.slowGenBankOriginParser each compare the line with fmt.Sprintf(\"%Wd\", position) through bytes.HasPrefix / bytes.Equal (W the index width of the writer); neither converts the index columns to a number", 2)
+	info := p.Info(core.PkgSeqio)
+	for _, fn := range []string{"validateOrigin", "slowGenBankOriginParser"} {
+		fd := p.FuncDecl(core.PkgSeqio, fn)
+		key := "seqio." + fn + "|index"
+		if fd == nil || fd.Body == nil {
+			r.Und("INDEX-EXACT", key, "-", "anchor-unresolved")
+			continue
+		}
+		r.Fn("seqio." + fn)
+		asg := core.Assigns(info, fd.Body)
+		isIndexText := func(e ast.Expr) bool {
+			found := false
+			var visit func(e ast.Expr, depth int)
+			visit = func(e ast.Expr, depth int) {
+				if depth > 4 || found {
+					return
+				}
+				e = ast.Unparen(core.Origin(info, asg, e))
+				if c, ok := e.(*ast.CallExpr); ok {
+					if core.IsConversion(info, c) && len(c.Args) == 1 {
+						visit(c.Args[0], depth+1)
+						return
+					}
+					if core.IsCallTo(info, c, "fmt.Sprintf") && len(c.Args) == 2 {
+						if f, ok := core.ConstString(info, c.Args[0]); ok && len(f) >= 3 && f[0] == '%' && f[len(f)-1] == 'd' {
+							found = true
+						}
+					}
+				}
+			}
+			visit(e, 0)
+			return found
+		}
+		exact := false
+		var numeric *ast.CallExpr
+		for _, c := range core.Calls(fd.Body) {
+			if core.IsCallTo(info, c, "bytes.HasPrefix", "bytes.Equal") && len(c.Args) == 2 && (isIndexText(c.Args[0]) || isIndexText(c.Args[1])) {
+				exact = true
+			}
+			if core.IsCallTo(info, c, "strconv.Atoi", "strconv.ParseInt", "strconv.ParseUint") {
+				numeric = c
+			}
+		}
+		switch {
+		case numeric != nil:
+			r.Bad("INDEX-EXACT", key, p.Pos(numeric.Pos()), fn+" reads the index columns as a number: `000000061` or `      +61` pass where the other reader (and the writer's layout) demand the exact nine-column text")
+		case !exact:
+			r.Bad("INDEX-EXACT", key, p.Pos(fd.Pos()), fn+" does not compare the line with the formatted index text")
+		default:
+			r.Ok("INDEX-EXACT", key, p.Pos(fd.Pos()), "byte-for-byte comparison with the formatted index")
+		}
+	}
+}
